@@ -181,6 +181,17 @@ def valid(cfg):
             return False  # keep porous criteria associated
     if cfg["sp"] == "damage" and is_porous(cfg):
         return False
+    if is_porous(cfg) and any(KIN_CHOICES[fl["kin"]] for fl in cfg["flows"]):
+        return False  # "kinematic hardening rules are not supported when coupled with a porosity evolution" (mfront error)
+    if len(cfg["flows"]) > 1:
+        # Several flows: mfront 5.2-dev generates code that does not compile (identifiers without the flow id) for
+        # StrainRateSensitive / UserDefined hardening rules, UserDefinedViscoplasticity flows and porous criteria.
+        # Not a Jacobian question: those combinations are left out (reported separately).
+        if is_porous(cfg):
+            return False
+        for fl in cfg["flows"]:
+            if fl["flow"] == "UserDefinedVP" or any(x.startswith(("SRS", "UserDefined")) for x in ISO_CHOICES[fl["iso"]]):
+                return False
     return True
 
 
